@@ -230,6 +230,38 @@ def replay_python(params, args, kwargs, ops) -> str:
   return c03.replay_python(params, args, kwargs, ops) + "\nprint(fdl.build(cfg))"
 
 
+KNOWN_FACTORY_GAP = "C01/default-factory-parameter-skipped-before-a-positional-value"
+
+
+def factory_gap_case(res):
+  """A parameter whose default is a *factory* (arg_factory.default_factory under @supply_defaults) is left
+  unset while a later positional value (*args) is configured: the callee must receive what it receives when
+  called directly with that parameter omitted - a fresh product of the factory."""
+  from fiddle import arg_factory
+
+  @arg_factory.supply_defaults
+  def fsg(a, b=arg_factory.default_factory(list), *args):
+    return (a, b, args)
+
+  for ctor_args, varargs in (((1,), [7, 8]), ((2,), [0])):
+    cfg = fdl.Config(fsg, *ctor_args)
+    cfg[fdl.VARARGS:] = varargs
+    res.evaluations += 1
+    res.count("factory-gap")
+    try:
+      got = fdl.build(cfg)
+    except Exception as e:  # pylint: disable=broad-except
+      got = ("raised", type(e).__name__)
+    want = (ctor_args[0], [], tuple(varargs))
+    if got != want or not isinstance(got[1], list):
+      key = KNOWN_FACTORY_GAP if (isinstance(got, tuple) and len(got) == 3 and got[0] == want[0]
+                                  and got[2] == want[2] and isinstance(got[1], arg_factory.ArgFactory)) else None
+      res.failures.append(Failure(key, f"C01 factory-gap: callee received {got!r}, a direct call without the "
+                                  f"parameter gives {want!r}",
+                                  {"signature": "a, b=default_factory(list), *args", "ctor_args": list(ctor_args),
+                                   "varargs": varargs}))
+
+
 def run(tier: str, seed: int) -> Result:
   rng = random.Random(seed * 104729 + 1)
   res = Result()
@@ -311,4 +343,5 @@ def run(tier: str, seed: int) -> Result:
                      + g_view(view, params, intern) + ")", meta=replay)
   res.exhaustive = False
   res.notes.append(f"exhaustive small-scope stream: {len(shapes)} signature shapes")
+  factory_gap_case(res)
   return res
